@@ -169,6 +169,7 @@ func init() {
 			items = append(items, Item{Name: "go-struct-inputs", MaxDevs: -1, Run: c01StructInputScenario})
 			items = append(items, Item{Name: "number-bound-chains", MaxDevs: -1, Run: c01NumberChainScenario})
 			items = append(items, Item{Name: "length-and-instant-bound-chains", MaxDevs: -1, Run: c01OtherChainScenario})
+			items = append(items, c01ShortSubjectItems()...)
 			return append(items, Item{Name: "builtin-tests-on-long-values", MaxDevs: -1, Run: c01BuiltinLongScenario})
 		},
 	})
@@ -844,4 +845,56 @@ func c01StructInputScenario(x *mc.X) *mc.Outcome {
 		}
 	}
 	return out
+}
+
+// The substring tests on every subject of up to five symbols drawn from the parameter's own letters (and one
+// other letter): subjects shorter than, as long as and longer than the parameter, matching and not. C01 reports
+// the accepted values that do not satisfy the test.
+func c01ShortSubjectItems() []Item {
+	sub := func(name, code string, build func(s *z.StringSchema[string], not bool) *z.StringSchema[string], pred func(v string) bool) strTest {
+		return strTest{name, code, build, pred, false}
+	}
+	tests := []strTest{
+		sub(`HasSuffix(".com")`, "suffix", func(s *z.StringSchema[string], not bool) *z.StringSchema[string] {
+			if not {
+				return s.Not().HasSuffix(".com")
+			}
+			return s.HasSuffix(".com")
+		}, func(v string) bool { return strings.HasSuffix(v, ".com") }),
+		sub(`HasPrefix(".com")`, "prefix", func(s *z.StringSchema[string], not bool) *z.StringSchema[string] {
+			if not {
+				return s.Not().HasPrefix(".com")
+			}
+			return s.HasPrefix(".com")
+		}, func(v string) bool { return strings.HasPrefix(v, ".com") }),
+		sub(`Contains(".com")`, "contained", func(s *z.StringSchema[string], not bool) *z.StringSchema[string] {
+			if not {
+				return s.Not().Contains(".com")
+			}
+			return s.Contains(".com")
+		}, func(v string) bool { return strings.Contains(v, ".com") }),
+	}
+	var items []Item
+	for _, t := range tests {
+		for _, not := range []bool{false, true} {
+			inner := c20StringItem(t, not, []string{".", "c", "o", "m", "a"}, 5)
+			name := t.name
+			if not {
+				name = "Not()." + name
+			}
+			items = append(items, Item{Name: "builtin-tests-on-short-values/" + name, MaxDevs: -1, Run: func(x *mc.X) *mc.Outcome {
+				out := inner(x)
+				var keep []*mc.Violation
+				for _, v := range out.Viol {
+					if strings.HasSuffix(v.Key, "want_pass=false") { // a value that violates the test was accepted
+						v.Key = "C01:builtin-short-value:" + strings.TrimPrefix(v.Key, "C20:")
+						keep = append(keep, v)
+					}
+				}
+				out.Viol = keep
+				return out
+			}})
+		}
+	}
+	return items
 }
